@@ -197,6 +197,75 @@ func Diff(prefix string, a, b map[string]string) []string {
 	return out
 }
 
+// Shape summarises WHICH configuration an object carries, independent of addresses: scalars by value, slices and maps by
+// length, pointers / functions / interfaces / channels by being set or not (structs of the library are entered, up to
+// three levels).  Two instances built by the same constructor from equal options have equal shapes.
+func Shape(x any) map[string]string {
+	out := map[string]string{}
+	v := reflect.ValueOf(x)
+	for v.IsValid() && (v.Kind() == reflect.Pointer || v.Kind() == reflect.Interface) {
+		if v.IsNil() {
+			return out
+		}
+		v = v.Elem()
+	}
+	if !v.IsValid() || v.Kind() != reflect.Struct {
+		return out
+	}
+	for i := 0; i < v.NumField(); i++ {
+		out[v.Type().Field(i).Name] = shapeOf(v.Field(i), 0)
+	}
+	return out
+}
+
+func shapeOf(v reflect.Value, depth int) string {
+	switch v.Kind() {
+	case reflect.Bool:
+		return fmt.Sprint(v.Bool())
+	case reflect.Int, reflect.Int8, reflect.Int16, reflect.Int32, reflect.Int64:
+		return fmt.Sprint(v.Int())
+	case reflect.Uint, reflect.Uint8, reflect.Uint16, reflect.Uint32, reflect.Uint64:
+		return fmt.Sprint(v.Uint())
+	case reflect.String:
+		return fmt.Sprintf("%q", v.String())
+	case reflect.Slice, reflect.Map:
+		if v.IsNil() {
+			return "nil"
+		}
+		return fmt.Sprintf("len=%d", v.Len())
+	case reflect.Func, reflect.Chan, reflect.UnsafePointer:
+		if v.IsNil() {
+			return "nil"
+		}
+		return "set"
+	case reflect.Interface:
+		if v.IsNil() {
+			return "nil"
+		}
+		return "(" + v.Elem().Type().String() + ")"
+	case reflect.Pointer:
+		if v.IsNil() {
+			return "nil"
+		}
+		if shallow(v.Type().Elem()) || depth >= 3 {
+			return "set"
+		}
+		return "&" + shapeOf(v.Elem(), depth+1)
+	case reflect.Struct:
+		if shallow(v.Type()) || depth >= 3 {
+			return "{" + v.Type().String() + "}"
+		}
+		var b strings.Builder
+		b.WriteString("{")
+		for i := 0; i < v.NumField(); i++ {
+			b.WriteString(v.Type().Field(i).Name + ":" + shapeOf(v.Field(i), depth+1) + ";")
+		}
+		b.WriteString("}")
+		return b.String()
+	}
+	return v.Kind().String()
+}
+
 // TypeName is the Go type of x as the footprint model names it (leading * stripped)
 func TypeName(x any) string {
 	return strings.TrimPrefix(reflect.TypeOf(x).String(), "*")
